@@ -77,6 +77,7 @@ type seen struct {
 	nilCtx  bool       // a context-aware callback was handed a nil context
 	failed  string     // security.FailedBasicAuth after the run
 	oauth   string     // security.OAuth2SchemeName after the run
+	inCb    []string   // bearer, context-aware variant: security.OAuth2SchemeNameCtx of the context the callback was handed
 }
 
 func (s *seen) String() string {
@@ -501,6 +502,7 @@ func runBearer(c BearerCase, ctxVariant bool) (*seen, *kit.Violation) {
 				}
 				s.calls = append(s.calls, []string{tok})
 				s.scopes = append(s.scopes, scopes)
+				s.inCb = append(s.inCb, security.OAuth2SchemeNameCtx(ctx))
 				pr, err := cbResult(c.Callback)
 				return context.WithValue(ctx, ctxMarker{}, "app"), pr, err
 			})
@@ -592,6 +594,11 @@ func CheckBearer(c BearerCase) *kit.Violation {
 			return kit.Failf("%s: want applies=true, one callback call with the %s token %q and scopes %q, principal=%s err=%v, OAuth2SchemeName=%q; got %s",
 				what, from, want, c.Scopes, princString(wp), we, c.Scheme, s)
 		}
+		// OAuth2SchemeNameCtx reads the scheme from a context: the one place an application holds that context is its
+		// context-aware callback (one callback serving several oauth2 schemes tells them apart this way)
+		if ctxVariant && (len(s.inCb) != 1 || s.inCb[0] != c.Scheme) {
+			return kit.Failf("%s: inside the callback OAuth2SchemeNameCtx(ctx) reads %q, the authenticator was built for scheme %q", what, s.inCb, c.Scheme)
+		}
 	}
 	return nil
 }
@@ -676,6 +683,9 @@ type DefaultCase struct {
 	Default Cred     `json:"default"`
 	Op      *Cred    `json:"op,omitempty"`
 	Preset  kit.BStr `json:"preset,omitempty"` // Authorization value set by the parameter writer ("" = not set); never a Basic/Bearer credential
+	// PresetName is the spelling of the header name the parameter writer uses ("" = "Authorization"): header names are
+	// case-insensitive, "authorization" pre-sets the same header
+	PresetName string `json:"preset_name,omitempty"`
 	Method  string   `json:"method"`
 	// Rotated: the same transport has already sent a request under another default credential (a token that has
 	// been rotated since): the default that counts is the one configured when the request is made.
@@ -705,7 +715,11 @@ func CheckDefault(c DefaultCase) *kit.Violation {
 	}
 	if c.Preset != "" {
 		op.Params = runtime.ClientRequestWriterFunc(func(req runtime.ClientRequest, _ strfmt.Registry) error {
-			return req.SetHeaderParam("Authorization", string(c.Preset))
+			name := c.PresetName
+			if name == "" {
+				name = "Authorization"
+			}
+			return req.SetHeaderParam(name, string(c.Preset))
 		})
 	}
 	applied := map[string]bool{}
